@@ -10,6 +10,8 @@ CLAIMED = {
          'For every number module, documented option set and explored input length, every path of validate(x)/is_valid(x) over a fully symbolic string x (each character 0..0x10FFFF, at most K=1 exotic event per input in quick) is enumerated with z3 deciding branch feasibility; a path ending in a non-ValidationError exception, a non-str return, or an is_valid that raises / is not a bool / disagrees with validate is a violation once its witness reproduces on the real code. Bounded (lengths, K, path/time caps per unit are reported); non-string argument shapes are explored concretely.', '5 C01'),
  'C02': ('bounded symbolic execution of validate(validate(x)) on the real code + z3 obligations (equality, no surrounding whitespace)',
          'On every accepting path of validate(x) the same path continues with validate(v): the solver must show v is accepted again, returned unchanged and has no leading/trailing Unicode whitespace, for all inputs following that path. Bounded as C01.', '5 C02'),
+ 'C05': ('symbolic execution of the real calc_check_digit(s) and validate() (relation scripts + paired runs with proven lemmas) + z3',
+         'For the modules whose generator argument / check position can be inferred from their doctest-valid numbers (55 of ~85; the rest are listed as uncovered in the evidence): the generator applied to the payload of any symbolic valid number returns the embedded check character(s); any other character of the check alphabet at a check position makes the number invalid; completing any symbolic payload with the generated character(s) is never rejected with InvalidChecksum. Bounded lengths / caps. The generic algorithm modules are covered by C06 instead.', '5 C05'),
  'C06': ('paired symbolic runs of the real checksum/calc_check_digit/validate with cut points and solver-proven injectivity lemmas; z3',
          'For Luhn (several alphabets), Verhoeff, Damm and the five ISO 7064 modules: for all payloads of each explored length the solver shows append-validity, uniqueness of the check character, detection of every same-kind single substitution and (where promised) every adjacent transposition, and that Luhn misses exactly the first/last-symbol swap. Bounded lengths; the unbounded claim of the property is not made.', '5 C06'),
  'C03': ('symbolic execution of the real compact()/validate() on the pair (x, compact(x)) for a fully symbolic x + z3 obligation "same outcome"; transitivity argument for arbitrary pairs',
